@@ -235,10 +235,33 @@ def translate(repo):
                  ' else attribute_data.loc[ids].data\n'
                  ' for attribute_name, attribute_data in self.items()\n'
                  ' if len(attribute_data.data.shape) < 3}')
+    # by id, through the CURRENT values (attribute.data) instead of the pandas frame
+    nodal_cur = ('return {\n attribute_name:\n attribute_data.data if ids is None\n'
+                 ' else attribute_data.values_of(ids)\n'
+                 ' for attribute_name, attribute_data in self.items()\n'
+                 ' if len(attribute_data.data.shape) < 3}')
+    values_of = ('def values_of(self, ids):\n'
+                 '    indices = self._data_frame.index.get_indexer(ids)\n'
+                 '    if np.any(indices < 0):\n'
+                 '        raise KeyError(f"{self.name} has no row for some of the IDs")\n'
+                 '    return self.data[indices]')
     if not (len(bt) == 1 and isinstance(bt[0], ast.If) and len(bt[0].orelse) == 1 and
             ast.dump(bt[0].test) == ast.dump(ast.parse('self.is_elemental').body[0].value)):
         raise TranslateError('FEMAttributes.to_meshio has an unexpected shape')
     params = [a.arg for a in tm.args.args]
+    out['point_data_current_values'] = True
+    if _same(calls[0], call_ids) and _same(bt[0].orelse[0], nodal_cur) and params == ['self', 'ids']:
+        src_fa = (repo / 'femio' / 'fem_attribute.py').read_text()
+        vo = _method(_class(ast.parse(src_fa), 'FEMAttribute'), 'values_of')
+        vo.body = _body(vo)
+        if ast.dump(vo) != ast.dump(ast.parse(values_of).body[0]):
+            raise TranslateError('FEMAttribute.values_of is not the id -> position lookup into self.data')
+        out['point_data_by_id'] = True
+        out['point_data_rank_bound'] = 3
+        for nm_, src_, node_ in (('fem_attributes.py:to_meshio', src_a, tm),
+                                 ('fem_data.py:to_meshio', src_d, fdm)):
+            consumed[nm_] = hashlib.sha256(ast.get_source_segment(src_, node_).encode()).hexdigest()
+        return out, consumed
     if _same(calls[0], call_pos) and _same(bt[0].orelse[0], nodal_pos) and params == ['self']:
         out['point_data_by_id'] = False
     elif _same(calls[0], call_pos) and _same(bt[0].orelse[0], nodal_ids) and params == ['self', 'ids'] \
@@ -247,6 +270,9 @@ def translate(repo):
         out['point_data_by_id'] = False      # new parameter, not used by the export
     elif _same(calls[0], call_ids) and _same(bt[0].orelse[0], nodal_ids) and params == ['self', 'ids']:
         out['point_data_by_id'] = True
+        # attribute.loc[ids] reads the pandas frame, which in-place edits of attribute.data
+        # (attr.data[...] = v) do not refresh: the export depends on the history
+        out['point_data_current_values'] = False
     else:
         raise TranslateError('nodal point-data export is neither the positional nor the by-id form')
     out['point_data_rank_bound'] = 3
@@ -277,7 +303,10 @@ def emit(t):
          '(* FEMAttributes.to_meshio exports the variables with len(shape) < this *)',
          f'Definition point_data_rank_bound : nat := {t["point_data_rank_bound"]}.',
          '(* FEMData.to_meshio hands the node ids to it (values looked up by id) or not (positional) *)',
-         f'Definition point_data_by_id : bool := {str(t["point_data_by_id"]).lower()}.']
+         f'Definition point_data_by_id : bool := {str(t["point_data_by_id"]).lower()}.',
+         '(* the exported rows are the CURRENT values (attribute.data); false = read through the pandas',
+         '   frame (.loc), which an in-place edit `attribute.data[...] = v` leaves stale *)',
+         f'Definition point_data_current_values : bool := {str(t["point_data_current_values"]).lower()}.']
     return '\n'.join(L) + '\n'
 
 
